@@ -140,7 +140,8 @@ def tb_dist(case, obs):
 def din_observe(case):
     cfg = case.get("cfg", {})
     args, kw = [], {}
-    fac = (lambda: 1)
+    import c19_conv
+    fac = c19_conv.odd(lambda: 1, cfg.get("callable", "function"))
     if case["hasDefault"]:
         if case["defaultIsFactory"]:
             d = attr.Factory((lambda self: 1) if case["takesSelf"] else fac, takes_self=case["takesSelf"])
@@ -179,9 +180,11 @@ def din_gen(tier, rng):
                     for pos in (False, True):
                         for en in (False, True):
                             for dval in ("None", "zero", "tok", "list"):
-                                yield {"kind": "din", "hasDefault": hd, "defaultIsFactory": isf, "takesSelf": ts,
-                                       "hasFactory": hf,
-                                       "cfg": {"pos": pos, "explicit_nothing": en, "explicit_none": en, "dval": dval}}
+                                for style in ("function", "falsy", "len0"):
+                                    yield {"kind": "din", "hasDefault": hd, "defaultIsFactory": isf, "takesSelf": ts,
+                                           "hasFactory": hf,
+                                           "cfg": {"pos": pos, "explicit_nothing": en, "explicit_none": en, "dval": dval,
+                                                   "callable": style}}
 
 
 # ============================================================================================ filters
@@ -431,8 +434,9 @@ CALLS: list = []      # (slot, a, b) raw arguments of every call of a supplied f
 RAISED: list = []     # exception objects raised by supplied functions
 
 
-def make_rel(slot, rel, partial, exc_cls):
-    """instrumented supplied function: records the call; partial = raises on payloads of different classes"""
+def make_rel(slot, rel, partial, exc_cls, style="function"):
+    """instrumented supplied function: records the call; partial = raises on payloads of different classes;
+    style: a plain function, or a valid callable object that is falsy / has __len__() == 0"""
     def fn(a, b):
         CALLS.append((slot, a, b))
         if rel == "boom" or (partial and type(a) is not type(b)):
@@ -442,7 +446,8 @@ def make_rel(slot, rel, partial, exc_cls):
         return RELS[rel](a, b)
 
     fn.__name__ = slot
-    return fn
+    import c19_conv
+    return c19_conv.odd(fn, style)
 
 
 def _r(thunk):
@@ -465,12 +470,32 @@ def c_observe(case):
     cfg = case.get("cfg", {})
     del CALLS[:], RAISED[:]
     exc_cls = EXC_CLASSES[cfg.get("exc", "Exception")]
-    kw = {s: make_rel(s, case[s], case.get("partialFns", False), exc_cls) for s in SLOTS if case[s] is not None}
+    fns = {s: make_rel(s, case[s], case.get("partialFns", False), exc_cls, cfg.get("callable", "function"))
+           for s in SLOTS if case[s] is not None}
+    kw = dict(fns)
     if not (cfg.get("omit_rst") and case["requireSameType"]):
         kw["require_same_type"] = case["requireSameType"]
     if not (cfg.get("omit_name") and case["className"] == "Comparable"):
         kw["class_name"] = case["className"]
     empty = {"name": "", "hashNone": False, "direct": [], "ops": [], "directCalls": [], "opCalls": []}
+    # a HISTORY of cmp_using calls around the one under test, built from THE SAME function objects (all of them, or
+    # all but one) with their own require_same_type: a class must not be influenced by classes created before or
+    # after it (harness-only variation: the model knows nothing about the other classes)
+    others = cfg.get("others", [])
+
+    def make_others(when):
+        for o in others:
+            if o["when"] != when:
+                continue
+            okw = {s: f for s, f in fns.items() if s != o.get("drop")}
+            try:
+                oc = attr.cmp_using(require_same_type=o["rst"], class_name=o.get("name", "Other"), **okw)
+                if o.get("use"):
+                    oc(1) == oc(1.0), oc(1) != oc(2)      # and used, on payloads of different classes
+            except BaseException:  # noqa: BLE001
+                pass
+
+    make_others("before")
     try:
         cls = attr.cmp_using(**kw)
     except ValueError:
@@ -493,6 +518,7 @@ def c_observe(case):
         yb = float(b)
         if flip:
             xa, yb = float(a), b
+    make_others("after")
     x = cls(xa)
     y = object() if rhs == "foreign" else x if rhs == "identical" else cls(yb)     # identical: the SAME wrapper object
     payloads = [xa] if rhs in ("foreign", "identical") else [xa, yb]
@@ -524,7 +550,22 @@ def c_case(fns, rst, name, a, b, rhs, rng, partial=False):
     return {"kind": "cmp", **{s: fns.get(s) for s in SLOTS}, "requireSameType": rst, "className": name,
             "a": a, "b": b, "rhs": rhs, "partialFns": partial,
             "cfg": {"flip": rng.random() < 0.3, "omit_rst": rng.random() < 0.5, "omit_name": rng.random() < 0.5,
-                    "exc": rng.choice(list(EXC_CLASSES))}}
+                    "exc": rng.choice(list(EXC_CLASSES)),
+                    "callable": rng.choice(["function", "function", "function", "falsy", "len0"]),
+                    "others": rand_others(rng, rst)}}
+
+
+def rand_others(rng, rst, p=0.5):
+    """0-3 other cmp_using calls on the same function objects, before / after the one under test; mostly with the
+    OPPOSITE require_same_type"""
+    if rng.random() > p:
+        return []
+    out = []
+    for _ in range(rng.choice([1, 1, 2, 3])):
+        out.append({"when": rng.choice(["before", "after"]), "rst": (not rst) if rng.random() < 0.75 else rst,
+                    "drop": rng.choice([None, None, None] + SLOTS), "use": rng.random() < 0.5,
+                    "name": rng.choice(["Other", "Comparable"])})
+    return out
 
 
 PAIRS = [(0, 1), (1, 0), (1, 1), (-3, 2), (2, 2)]
@@ -542,6 +583,20 @@ def c_gen(tier, rng):
                     yield c_case(fns, rst, rng.choice(names), a, b, rhs, rng)
                     if rhs not in ("same", "identical") and (a, b) != (1, 1):
                         yield c_case(fns, rst, rng.choice(names), a, b, rhs, rng, partial=True)
+    # histories: the class under test next to classes built from the very same function objects with the opposite
+    # require_same_type, created (and used) before it, after it, or both; type-mismatched operands
+    def oth(when, rst, use):
+        return {"when": when, "rst": rst, "drop": None, "use": use, "name": "Other"}
+
+    for mask in range(32):
+        fns = {s: s for i, s in enumerate(SLOTS) if mask >> i & 1}
+        for rst in (True, False):
+            for rhs in ("sub", "otherType"):
+                for k, hist in enumerate(([oth("before", not rst, True)], [oth("after", not rst, False)],
+                                          [oth("before", rst, False), oth("after", not rst, True)])):
+                    c = c_case(fns, rst, "Comparable", 0, 1, rhs, rng)
+                    c["cfg"]["others"] = hist
+                    yield c
     rels = list(RELS) + ["boom"]
     # the diagonal: the same wrapper object on both sides, with an eq function that need not be reflexive
     for eqrel in rels:
@@ -582,6 +637,9 @@ def c_dist(case, obs):
     return {"cmp.n_supplied": len(sup), "cmp.consistent": all(case[s] == s for s in sup), "cmp.rhs": case["rhs"],
             "cmp.require_same_type": case["requireSameType"], "cmp.partial_fns": case.get("partialFns"),
             "cmp.exc_class": case.get("cfg", {}).get("exc"),
+            "cmp.callable_style": case.get("cfg", {}).get("callable", "function"),
+            "cmp.other_classes": "+".join(sorted({o["when"] + ("!" if o["rst"] != case["requireSameType"] else "=")
+                                                  for o in case.get("cfg", {}).get("others", [])})) or "-",
             "cmp.any_raised": "raised" in (obs.get("direct", []) if isinstance(obs, dict) else []),
             "cmp.ctor": obs.get("ctor") if isinstance(obs, dict) else "?"}
 
@@ -602,6 +660,11 @@ def c_shrink(case):
         yield dict(case, a=0, b=1)
     if case.get("cfg", {}).get("flip"):
         yield dict(case, cfg=dict(case["cfg"], flip=False))
+    oth = case.get("cfg", {}).get("others", [])
+    for i in range(len(oth)):
+        yield dict(case, cfg=dict(case["cfg"], others=oth[:i] + oth[i + 1:]))
+    if case.get("cfg", {}).get("callable", "function") != "function":
+        yield dict(case, cfg=dict(case["cfg"], callable="function"))
 
 
 def c_neighbours(case, rng):
